@@ -291,39 +291,72 @@ Definition uses_helper (o : binop) (lt rt : ity) : bool :=
   is_shiftop o || (match o with Bidiv | Bmod => sgn lt || sgn rt | _ => false end) ||
   (is_cmpop o && mixed lt rt).
 
-Definition rt_bin_c (o : binop) (lt rt cl cr : ity) (a b : Z) : option (ity * Z) :=
+(* the constant-count fast paths of operators.shl / shr / asr: the count is a compile-time value
+   with 0 <= b < bitsize (shr: unsigned left operand only) *)
+Definition fast_count (o : binop) (lt : ity) (kc : bool) (b : Z) : bool :=
+  kc && (0 <=? b) && (b <? bits lt) &&
+  (match o with Bshl | Basr => true | Bshr => negb (sgn lt) | _ => false end).
+
+(* shl signed: ((T)((uT)l << k)); shl unsigned: (l << k), cast to T for T narrower than int only if
+   Gen.shl_fast_casts_unsigned_subint; shr / asr: (l >> k) *)
+Definition rt_shift_fast (o : binop) (lt cl : ity) (a b : Z) : option (ity * Z) :=
+  match o with
+  | Bshl =>
+      if sgn lt then
+        omap (fun v => (lt, v))
+             (obind (obind (c_conv Gnu (to_unsigned lt) a) (fun a' => c_shl Gnu (to_unsigned lt) I32 a' b)) (c_conv Gnu lt))
+      else if shl_fast_casts_unsigned_subint && (bits lt <? 32) then
+        omap (fun v => (lt, v)) (obind (c_shl Gnu cl I32 a b) (c_conv Gnu lt))
+      else omap (fun v => (c_shift_type cl, v)) (c_shl Gnu cl I32 a b)
+  | Bshr | Basr => omap (fun v => (c_shift_type cl, v)) (c_shr Gnu cl I32 a b)
+  | _ => None
+  end.
+
+(* kc: the right operand is a compile-time constant (only the shift fast paths look at it here) *)
+Definition rt_bin_c (o : binop) (lt rt cl cr : ity) (a b : Z) (kc : bool) : option (ity * Z) :=
   let t := rt_type o lt rt in
-  if uses_helper o lt rt then
+  if fast_count o lt kc b then rt_shift_fast o lt cl a b
+  else if uses_helper o lt rt then
     (* the arguments are converted to the helper's parameter types by the C call *)
     of_stored (rt_bin o lt rt a b)
   else if is_cmpop o then omap (fun v => (I32, v)) (plain_c o cl cr a b)
   else if mixed lt rt && (match o with Btdiv | Btmod => true | _ => false end) then
-    (* (T)((T)l / (T)r): done in the result type and (since 8eb30df) cast back to it *)
-    omap (fun v => (t, v))
-         (obind (obind (c_conv Gnu t a) (fun a' => obind (c_conv Gnu t b) (plain_c o t t a'))) (c_conv Gnu t))
-  else if mixed lt rt || (bits t <? 32) then
+    (* ((T)l / (T)r), cast back to T iff Gen.tdiv_mixed_casts_back (8eb30df) *)
+    let raw := obind (c_conv Gnu t a) (fun a' => obind (c_conv Gnu t b) (plain_c o t t a')) in
+    if tdiv_mixed_casts_back then omap (fun v => (t, v)) (obind raw (c_conv Gnu t))
+    else omap (fun v => (c_arith_type t t, v)) raw
+  else if mixed lt rt || (binop_casts_subint && (bits t <? 32)) then
     omap (fun v => (t, v)) (obind (plain_c o cl cr a b) (c_conv Gnu t))   (* (T)(l op r) *)
   else omap (fun v => (c_arith_type cl cr, v)) (plain_c o cl cr a b).
 
+(* the value of `l o r` stored in a variable of its type, the count possibly a constant *)
+Definition rt_bin_k (o : binop) (lt rt : ity) (a b : Z) (kc : bool) : rres :=
+  if fast_count o lt kc b then
+    match rt_shift_fast o lt lt a b with
+    | Some (_, v) => of_val lt (Some v)
+    | None => Rundef
+    end
+  else rt_bin o lt rt a b.
+
 (* the outer operator applied to a left operand of Nelua type ti, C type ci, value v; result stored *)
 Definition rt_outer (o2 : binop) (ti t3 ci : ity) (v c : Z) : rres :=
-  match rt_bin_c o2 ti t3 ci t3 v c with
+  match rt_bin_c o2 ti t3 ci t3 v c false with
   | None => Rundef
   | Some (_, w) =>
       if is_cmpop o2 then Rbool (negb (w =? 0))
       else match c_conv Gnu (rt_type o2 ti t3) w with Some w' => Rval (rt_type o2 ti t3) w' | None => Rundef end
   end.
 
-(* `(x o1 y) o2 z`, all three operands at run time *)
-Definition rt_nested_l (o1 o2 : binop) (t1 t2 t3 : ity) (a b c : Z) : rres :=
-  match rt_bin_c o1 t1 t2 t1 t2 a b with
+(* `(x o1 y) o2 z`; k1: y is a compile-time constant *)
+Definition rt_nested_l (o1 o2 : binop) (t1 t2 t3 : ity) (a b c : Z) (k1 : bool) : rres :=
+  match rt_bin_c o1 t1 t2 t1 t2 a b k1 with
   | None => Rundef
   | Some (c1, v1) => rt_outer o2 (rt_type o1 t1 t2) t3 c1 v1 c
   end.
 
 (* the same with the inner result stored first: `local t = x o1 y; t o2 z` *)
-Definition rt_stored_l (o1 o2 : binop) (t1 t2 t3 : ity) (a b c : Z) : rres :=
-  match rt_bin o1 t1 t2 a b with
+Definition rt_stored_l (o1 o2 : binop) (t1 t2 t3 : ity) (a b c : Z) (k1 : bool) : rres :=
+  match rt_bin_k o1 t1 t2 a b k1 with
   | Rval ti v1 => rt_outer o2 ti t3 ti v1 c
   | _ => Rundef
   end.
